@@ -1517,116 +1517,121 @@ impl FixtureDatabase {
 
     /// Actually compute fixture cycles using iterative DFS (Tarjan-like approach).
     /// Uses iterative algorithm to avoid stack overflow on deep dependency graphs.
+    ///
+    /// The graph is built over fixture *definitions*, not names: the same name can be
+    /// defined at several levels, each dependency is resolved from the depending
+    /// fixture's file exactly as go-to-definition resolves it, and a fixture that
+    /// overrides a fixture while requesting its same-named parent does not depend on
+    /// itself.
     fn compute_fixture_cycles(&self) -> Vec<super::types::FixtureCycle> {
         use super::types::FixtureCycle;
         use std::collections::HashMap;
+        use std::path::PathBuf;
 
-        // Build dependency graph: fixture_name -> dependencies (only known fixtures)
-        let mut dep_graph: HashMap<String, Vec<String>> = HashMap::new();
-        let mut fixture_defs: HashMap<String, FixtureDefinition> = HashMap::new();
-
+        // Collect all definitions first so that no map guard is held while
+        // dependencies are resolved; sort them for a deterministic traversal order.
+        let mut nodes: Vec<FixtureDefinition> = Vec::new();
         for entry in self.definitions.iter() {
-            let fixture_name = entry.key().clone();
-            if let Some(def) = entry.value().first() {
-                fixture_defs.insert(fixture_name.clone(), def.clone());
-                // Only include dependencies that are known fixtures
-                let valid_deps: Vec<String> = def
-                    .dependencies
-                    .iter()
-                    .filter(|d| self.definitions.contains_key(*d))
-                    .cloned()
-                    .collect();
-                dep_graph.insert(fixture_name, valid_deps);
-            }
+            nodes.extend(entry.value().iter().cloned());
+        }
+        nodes.sort_by(|a, b| {
+            (&a.file_path, a.line, &a.name).cmp(&(&b.file_path, b.line, &b.name))
+        });
+
+        let mut index_of: HashMap<(PathBuf, usize, String), usize> = HashMap::new();
+        for (i, def) in nodes.iter().enumerate() {
+            index_of
+                .entry((def.file_path.clone(), def.line, def.name.clone()))
+                .or_insert(i);
         }
 
+        // Dependency edges between definitions (only dependencies that resolve to a
+        // known fixture)
+        let dep_graph: Vec<Vec<usize>> = nodes
+            .iter()
+            .map(|def| {
+                def.dependencies
+                    .iter()
+                    .filter_map(|dep| {
+                        let target = if dep == &def.name {
+                            // A same-named parameter denotes the overridden parent; without
+                            // a parent the fixture really requests itself.
+                            self.find_closest_definition_excluding(&def.file_path, dep, Some(def))
+                                .or_else(|| Some(def.clone()))
+                        } else {
+                            self.find_closest_definition(&def.file_path, dep)
+                        }?;
+                        index_of
+                            .get(&(target.file_path, target.line, target.name))
+                            .copied()
+                    })
+                    .collect()
+            })
+            .collect();
+
         let mut cycles = Vec::new();
-        let mut visited: HashSet<String> = HashSet::new();
-        let mut seen_cycles: HashSet<String> = HashSet::new(); // Deduplicate cycles
+        let mut visited: HashSet<usize> = HashSet::new();
+        let mut seen_cycles: HashSet<Vec<usize>> = HashSet::new(); // Deduplicate cycles
+
+        let mut report = |path: &[usize], closing: usize, cycles: &mut Vec<FixtureCycle>| {
+            let cycle_start_idx = path.iter().position(|f| *f == closing).unwrap_or(0);
+            let members: Vec<usize> = path[cycle_start_idx..].to_vec();
+
+            // Canonical key for deduplication (sorted cycle members)
+            let mut cycle_key = members.clone();
+            cycle_key.sort_unstable();
+
+            if seen_cycles.insert(cycle_key) {
+                let mut cycle_path: Vec<String> =
+                    members.iter().map(|i| nodes[*i].name.clone()).collect();
+                cycle_path.push(nodes[closing].name.clone());
+                cycles.push(FixtureCycle {
+                    cycle_path,
+                    fixture: nodes[closing].clone(),
+                });
+            }
+        };
 
         // Iterative DFS using explicit stack
-        for start_fixture in dep_graph.keys() {
-            if visited.contains(start_fixture) {
+        for start_fixture in 0..nodes.len() {
+            if visited.contains(&start_fixture) {
                 continue;
             }
 
-            // Stack entries: (fixture_name, iterator_index, path_to_here)
-            let mut stack: Vec<(String, usize, Vec<String>)> =
-                vec![(start_fixture.clone(), 0, vec![])];
-            let mut rec_stack: HashSet<String> = HashSet::new();
+            // Stack entries: (node, iterator_index, path_to_here)
+            let mut stack: Vec<(usize, usize, Vec<usize>)> = vec![(start_fixture, 0, vec![])];
+            let mut rec_stack: HashSet<usize> = HashSet::new();
 
             while let Some((current, idx, mut path)) = stack.pop() {
                 if idx == 0 {
                     // First time visiting this node
                     if rec_stack.contains(&current) {
                         // Found a cycle
-                        let cycle_start_idx = path.iter().position(|f| f == &current).unwrap_or(0);
-                        let mut cycle_path: Vec<String> = path[cycle_start_idx..].to_vec();
-                        cycle_path.push(current.clone());
-
-                        // Create a canonical key for deduplication (sorted cycle representation)
-                        let mut cycle_key: Vec<String> =
-                            cycle_path[..cycle_path.len() - 1].to_vec();
-                        cycle_key.sort();
-                        let cycle_key_str = cycle_key.join(",");
-
-                        if !seen_cycles.contains(&cycle_key_str) {
-                            seen_cycles.insert(cycle_key_str);
-                            if let Some(fixture_def) = fixture_defs.get(&current) {
-                                cycles.push(FixtureCycle {
-                                    cycle_path,
-                                    fixture: fixture_def.clone(),
-                                });
-                            }
-                        }
+                        report(&path, current, &mut cycles);
                         continue;
                     }
 
-                    rec_stack.insert(current.clone());
-                    path.push(current.clone());
+                    rec_stack.insert(current);
+                    path.push(current);
                 }
 
-                // Get dependencies for current node
-                let deps = match dep_graph.get(&current) {
-                    Some(d) => d,
-                    None => {
-                        rec_stack.remove(&current);
-                        continue;
-                    }
-                };
+                let deps = &dep_graph[current];
 
                 if idx < deps.len() {
                     // Push current back with next index
-                    stack.push((current.clone(), idx + 1, path.clone()));
+                    stack.push((current, idx + 1, path.clone()));
 
-                    let dep = &deps[idx];
-                    if rec_stack.contains(dep) {
+                    let dep = deps[idx];
+                    if rec_stack.contains(&dep) {
                         // Found a cycle through this dependency
-                        let cycle_start_idx = path.iter().position(|f| f == dep).unwrap_or(0);
-                        let mut cycle_path: Vec<String> = path[cycle_start_idx..].to_vec();
-                        cycle_path.push(dep.clone());
-
-                        let mut cycle_key: Vec<String> =
-                            cycle_path[..cycle_path.len() - 1].to_vec();
-                        cycle_key.sort();
-                        let cycle_key_str = cycle_key.join(",");
-
-                        if !seen_cycles.contains(&cycle_key_str) {
-                            seen_cycles.insert(cycle_key_str);
-                            if let Some(fixture_def) = fixture_defs.get(dep) {
-                                cycles.push(FixtureCycle {
-                                    cycle_path,
-                                    fixture: fixture_def.clone(),
-                                });
-                            }
-                        }
-                    } else if !visited.contains(dep) {
+                        report(&path, dep, &mut cycles);
+                    } else if !visited.contains(&dep) {
                         // Explore this dependency
-                        stack.push((dep.clone(), 0, path.clone()));
+                        stack.push((dep, 0, path.clone()));
                     }
                 } else {
                     // Done with this node
-                    visited.insert(current.clone());
+                    visited.insert(current);
                     rec_stack.remove(&current);
                 }
             }
@@ -1674,26 +1679,38 @@ impl FixtureDatabase {
                 continue;
             };
 
-            // Find the definition in this file
-            let Some(fixture_def) = definitions.iter().find(|d| d.file_path == file_path) else {
+            // Find the definition in this file (the last binding is the one pytest registers)
+            let Some(fixture_def) = definitions
+                .iter()
+                .filter(|d| d.file_path == file_path)
+                .max_by_key(|d| d.line)
+                .cloned()
+            else {
                 continue;
             };
+            drop(definitions);
 
             // Check each dependency
             for dep_name in &fixture_def.dependencies {
-                // Find the dependency's definition (use resolution logic to get correct one)
-                if let Some(dep_definitions) = self.definitions.get(dep_name) {
-                    // Find best matching definition for the dependency
-                    // Use the first one (most local) - matches cycle detection behavior
-                    if let Some(dep_def) = dep_definitions.first() {
-                        // Check if scope mismatch: fixture has broader scope than dependency
-                        // FixtureScope is ordered: Function < Class < Module < Package < Session
-                        if fixture_def.scope > dep_def.scope {
-                            mismatches.push(ScopeMismatch {
-                                fixture: fixture_def.clone(),
-                                dependency: dep_def.clone(),
-                            });
-                        }
+                // The dependency's definition is the one resolution selects from this
+                // file (a same-named parameter denotes the overridden parent)
+                let dep_def = if dep_name == &fixture_def.name {
+                    self.find_closest_definition_excluding(
+                        file_path,
+                        dep_name,
+                        Some(&fixture_def),
+                    )
+                } else {
+                    self.find_closest_definition(file_path, dep_name)
+                };
+                if let Some(dep_def) = dep_def {
+                    // Check if scope mismatch: fixture has broader scope than dependency
+                    // FixtureScope is ordered: Function < Class < Module < Package < Session
+                    if fixture_def.scope > dep_def.scope {
+                        mismatches.push(ScopeMismatch {
+                            fixture: fixture_def.clone(),
+                            dependency: dep_def,
+                        });
                     }
                 }
             }
